@@ -362,6 +362,9 @@ struct FileCfg {
     names: u8,
     /// arrangement of the container (gen::voice::write_layout): header keys reversed, data blocks reversed, filler
     container: u8,
+    /// the log-F0 tree section defines the first question of the triple under the same NAME but with the patterns of
+    /// the second one (question definitions belong to their tree section)
+    qredef: bool,
 }
 
 fn build_file(fc: &FileCfg, pool: &[(String, Vec<String>)], all_shapes: &[TreeSpec]) -> VoiceSpec {
@@ -385,7 +388,13 @@ fn build_file(fc: &FileCfg, pool: &[(String, Vec<String>)], all_shapes: &[TreeSp
     let model = |code: usize, prefix: &str, states: Vec<usize>, half: usize, msd: bool, rot0: usize| -> ModelSpec {
         ModelSpec {
             prefix: prefix.into(),
-            questions: pool.to_vec(),
+            questions: {
+                let mut q = pool.to_vec();
+                if fc.qredef && code == 2 {
+                    q[fc.qtriple[0]].1 = pool[fc.qtriple[1]].1.clone();
+                }
+                q
+            },
             quoted: fc.quoted,
             numbering: fc.numbering,
             trees: {
@@ -533,7 +542,7 @@ fn construct_label(path: &[(String, bool)], questions: &HashMap<String, Vec<Stri
 
 pub fn run(tier: Tier) -> i32 {
     let rep = Report::new("C04", tier, "model_checking");
-    rep.set_rule("SCOPE: (a) bundled voice (also re-packed: data blocks in reverse order and/or separated by 0xFF filler): every model (duration, 3 streams x 5 states, 2 GV) x every label of the label space (corpus + one-group recombinations of the cover set + every distinct corpus value of every field group in 2-4 base labels + typed sweeps of every numeric field over 0..N + phoneme symbols from the voice's own patterns) vs an independent reader of the file + HTS wildcard matcher, bit-exact on means/variances/voicing weight and equal on tree/PDF index; (b) every distinct question of the bundled voice x the label space: crate matcher vs wildcard oracle; (c) generated files: all binary tree shapes with <= 3 internal nodes x 4 leaf numberings (in order, reversed, permuted, tied: one PDF reached by several branches) x quoted/unquoted x question triples from a pool of real questions (incl. the regex-fallback ones) x layout deviations (states, streams, vector length, window set, order in which the state trees are listed, numbering and listing order of the internal nodes: sequential, non-contiguous ids, ids counted backwards, yes-subtree rows first; the six orders of the spectrum options, also with a bare token or an unknown key inserted at each position; stream keys MGC/F0/BAP instead of MCP/LF0/LPF; header keys in reverse order, data blocks in reverse order and/or separated by filler bytes), plus one large file (a 300-node tree with 301 PDFs, 300 questions, one question with 300 patterns), checked against both the independent reader and the generator's spec (sentinel floats), on a stride after a Serialize/Deserialize round trip of the loaded voice; (d) metadata, options, windows, engine defaults vs the header; distinct = (file, model, state, label); non-trivial = lookups through a tree with more than one leaf");
+    rep.set_rule("SCOPE: (a) bundled voice (also re-packed: data blocks in reverse order and/or separated by 0xFF filler): every model (duration, 3 streams x 5 states, 2 GV) x every label of the label space (corpus + one-group recombinations of the cover set + every distinct corpus value of every field group in 2-4 base labels + typed sweeps of every numeric field over 0..N + phoneme symbols from the voice's own patterns) vs an independent reader of the file + HTS wildcard matcher, bit-exact on means/variances/voicing weight and equal on tree/PDF index; (b) every distinct question of the bundled voice x the label space: crate matcher vs wildcard oracle; (c) generated files: all binary tree shapes with <= 3 internal nodes x 4 leaf numberings (in order, reversed, permuted, tied: one PDF reached by several branches) x quoted/unquoted x question triples from a pool of real questions (incl. the regex-fallback ones) x layout deviations (states, streams, vector length, window set, order in which the state trees are listed, numbering and listing order of the internal nodes: sequential, non-contiguous ids, ids counted backwards, yes-subtree rows first; the six orders of the spectrum options, also with a bare token or an unknown key inserted at each position; stream keys MGC/F0/BAP instead of MCP/LF0/LPF; header keys in reverse order, data blocks in reverse order and/or separated by filler bytes), one question name defined with other patterns in the log-F0 tree section; plus one large file (a 300-node tree with 301 PDFs, 300 questions, one question with 300 patterns), checked against both the independent reader and the generator's spec (sentinel floats), on a stride after a Serialize/Deserialize round trip of the loaded voice; (d) metadata, options, windows, engine defaults vs the header; distinct = (file, model, state, label); non-trivial = lookups through a tree with more than one leaf");
     rep.assume("labels limited to the stated label space; generated trees have at most 3 internal nodes; the label text matched by the oracle is the label's own serialisation");
     // ---------- question pool from the bundled voice ----------
     let v0b = v0_bytes();
@@ -722,7 +731,7 @@ pub fn run(tier: Tier) -> i32 {
         .collect();
     let all_shapes: Vec<TreeSpec> = (0..=3).flat_map(shapes).collect();
     let mut files: Vec<FileCfg> = Vec::new();
-    let default = FileCfg { shape: 0, assign: 0, quoted: true, qtriple: [0, 1, 2], nstate: 2, ns: 3, vlen: 2, wset: 2, order: 0, numbering: 0, optorder: 0, names: 0, container: 0 };
+    let default = FileCfg { shape: 0, assign: 0, quoted: true, qtriple: [0, 1, 2], nstate: 2, ns: 3, vlen: 2, wset: 2, order: 0, numbering: 0, optorder: 0, names: 0, container: 0, qredef: false };
     let mut triples: Vec<[usize; 3]> = Vec::new();
     for a in 0..pool.len() {
         for b in 0..pool.len() {
@@ -777,6 +786,10 @@ pub fn run(tier: Tier) -> i32 {
                                 files.push(FileCfg { shape, assign, quoted, qtriple: *t, nstate: l.0, ns: l.1, vlen: l.2, wset: l.3, optorder, names: optorder % 2, ..default.clone() });
                             }
                         }
+                        // the same file with one question name defined differently in the log-F0 tree section
+                        if li == 0 && assign <= 1 && all_shapes[shape].nleaves() >= 2 {
+                            files.push(FileCfg { shape, assign, quoted, qtriple: *t, nstate: l.0, ns: l.1, vlen: l.2, wset: l.3, qredef: true, ..default.clone() });
+                        }
                         // the same file in the seven other arrangements of the container
                         if ti == 0 && li == 0 && assign <= 1 {
                             for container in 1..8u8 {
@@ -792,7 +805,7 @@ pub fn run(tier: Tier) -> i32 {
                         // the same file with its state trees listed in descending / rotated order (states >= 2 only)
                         if l.0 >= 2 && (ti == 0 || li == 0) && (shape + assign) % 2 == 0 {
                             for order in [1usize, 2] {
-                                files.push(FileCfg { shape, assign, quoted, qtriple: *t, nstate: if order == 2 { 5 } else { l.0 }, ns: l.1, vlen: l.2, wset: l.3, order, numbering: 0, optorder: 0, names: 0, container: 0 });
+                                files.push(FileCfg { shape, assign, quoted, qtriple: *t, nstate: if order == 2 { 5 } else { l.0 }, ns: l.1, vlen: l.2, wset: l.3, order, numbering: 0, optorder: 0, names: 0, container: 0, qredef: false });
                             }
                         }
                     }
